@@ -10,6 +10,7 @@ CONSTANTS
   HalvingInterval = 2
   MaxMoney = 30
   Horizon <- NoHorizon
+  RulesOff = {}
   Known <- NoKnown
   Keys = {1}
   Miners = {1}
@@ -25,6 +26,7 @@ CONSTANTS
   GenesisTarget <- Target1
 VIEW View
 INVARIANT I_C05
+INVARIANT I_C06_TamperRejected
 INVARIANT I_C02
 INVARIANT I_C02_Cumulative
 INVARIANT I_C03_Replay
